@@ -340,7 +340,15 @@ class BDDNonTerminalNode(BDDNode):
                 if succ.value:
                     repr.append('%s%s' % (neg, self.var))
             else:
-                repr.append('%s%s & %s' % (neg, self.var, succ))
+                succ_repr = '%s' % (succ)
+                if (not (isinstance(succ.low, BDDTerminalNode) and
+                         not succ.low.value) and
+                        not (isinstance(succ.high, BDDTerminalNode) and
+                             not succ.high.value)):
+                    # succ is printed as a disjunction and `&` binds
+                    # tighter than `|`
+                    succ_repr = '(%s)' % (succ_repr)
+                repr.append('%s%s & %s' % (neg, self.var, succ_repr))
 
         if len(repr) == 2:
             return '(%s) | (%s)' % (repr[0], repr[1])
